@@ -276,6 +276,22 @@ def check_direct(acc, chain_l):
         if m.pt.self_locking is not locking:
             acc.violation('C20/direct/self-locking', 'self-locking iff a worm mating was flagged', case,
                           {'got': m.pt.self_locking, 'ref': locking})
+        # "cannot be changed afterwards": neither simulating nor reset() may change the tuple or the flag
+        before = tuple(m.pt.elements)
+        try:
+            m.run([0.125, 'sec'], [0.25, 'sec'])
+            mid = (m.pt.self_locking, tuple(m.pt.elements))
+            m.pt.reset()
+            end = (m.pt.self_locking, tuple(m.pt.elements))
+        except Exception as ex:
+            acc.violation('C20/direct/simulate-reset-error', 'chain simulates and resets', case, {'exc': repr(ex)[:200]})
+            continue
+        acc.transitions += 2
+        for tag, (flag, els) in (('after-run', mid), ('after-reset', end)):
+            if flag is not locking or len(els) != len(before) or any(a is not b for a, b in zip(els, before)):
+                acc.violation(f'C20/direct/changed/{tag}', 'the element tuple and the self-locking flag cannot change after assembly', case,
+                              {'flag': flag, 'expected_flag': locking, 'elements': [e.name for e in els]})
+                break
         acc.state(('direct', menu.chain_name(chain_l), locking))
         acc.outcomes[('direct', len(m.elements), locking)] += 1
 
